@@ -221,6 +221,13 @@ func specAvail(req models.ChfConvergedChargingChargingDataRequest, held int64) u
 	return uint32(q)
 }
 
+// specShort: the account cannot cover the reservation this request needs (debt from the reported usage
+// plus the price of the requested volume): the response must then carry the final-unit indication (C06)
+func specShort(req models.ChfConvergedChargingChargingDataRequest) bool {
+	need := specPrice(req) - specUe(req).ReservedQuota[specRg(req)] + int64(specReqVol(req)*rating.GhostUnitCost[uint32(specRg(req))])
+	return need > abmf.GhostBalance[uint32(specRg(req))]
+}
+
 func specAllowedUnits(quota, uc uint32) uint32 {
 	if uc == 0 {
 		return 0xffffffff
@@ -403,6 +410,8 @@ func verifLemmaReserveKnownHeld(req models.ChfConvergedChargingChargingDataReque
 // @   ensures [C99] !abmf.GhostFailed && !rating.GhostFailed ==> abmf.GhostBalance[uint32(specRg(req))]+specUe(req).ReservedQuota[specRg(req)] == old(abmf.GhostBalance[uint32(specRg(req))])+old(specUe(req).ReservedQuota[specRg(req)])-specPrice(req)
 // @   ensures [C06] !abmf.GhostFailed && !rating.GhostFailed ==> abmf.GhostBalance[uint32(specRg(req))] >= 0
 // @   ensures [C06] !abmf.GhostFailed && !rating.GhostFailed && len(result0) == 1 && result0[0].GrantedUnit != nil ==> uint32(result0[0].GrantedUnit.TotalVolume) <= specAllowedUnits(specAvail(req, specUe(req).ReservedQuota[specRg(req)]), rating.GhostUnitCost[uint32(specRg(req))])
+// @   ensures [C06] !abmf.GhostFailed && !rating.GhostFailed && len(result0) == 1 && old(specShort(req)) ==> result0[0].FinalUnitIndication != nil && result0[0].FinalUnitIndication.FinalUnitAction == models.FinalUnitAction_TERMINATE
+// @   ensures [C06] !abmf.GhostFailed && !rating.GhostFailed && len(result0) == 1 && !old(specShort(req)) ==> result0[0].FinalUnitIndication != nil && result0[0].FinalUnitIndication.FinalUnitAction != models.FinalUnitAction_TERMINATE
 func verifLemmaReserveKnownNeed(req models.ChfConvergedChargingChargingDataRequest) ([]models.MultipleUnitInformation, bool) {
 	return sessionChargingReservation(req)
 }
@@ -451,6 +460,8 @@ func verifLemmaReserveNewHeld(req models.ChfConvergedChargingChargingDataRequest
 // @   ensures [C99] !abmf.GhostFailed && !rating.GhostFailed ==> abmf.GhostBalance[uint32(specRg(req))]+specUe(req).ReservedQuota[specRg(req)] == old(abmf.GhostBalance[uint32(specRg(req))])+old(specUe(req).ReservedQuota[specRg(req)])-specPrice(req)
 // @   ensures [C06] !abmf.GhostFailed && !rating.GhostFailed ==> abmf.GhostBalance[uint32(specRg(req))] >= 0
 // @   ensures [C06] !abmf.GhostFailed && !rating.GhostFailed && len(result0) == 1 && result0[0].GrantedUnit != nil ==> uint32(result0[0].GrantedUnit.TotalVolume) <= specAllowedUnits(specAvail(req, specUe(req).ReservedQuota[specRg(req)]), rating.GhostUnitCost[uint32(specRg(req))])
+// @   ensures [C06] !abmf.GhostFailed && !rating.GhostFailed && len(result0) == 1 && old(specShort(req)) ==> result0[0].FinalUnitIndication != nil && result0[0].FinalUnitIndication.FinalUnitAction == models.FinalUnitAction_TERMINATE
+// @   ensures [C06] !abmf.GhostFailed && !rating.GhostFailed && len(result0) == 1 && !old(specShort(req)) ==> result0[0].FinalUnitIndication != nil && result0[0].FinalUnitIndication.FinalUnitAction != models.FinalUnitAction_TERMINATE
 func verifLemmaReserveNewNeed(req models.ChfConvergedChargingChargingDataRequest) ([]models.MultipleUnitInformation, bool) {
 	return sessionChargingReservation(req)
 }
